@@ -574,6 +574,7 @@ def run(ctx: Any) -> None:
     sticky_mod._ReaperThread.start = _start  # type: ignore[method-assign]
 
     zstd_rt = _zstd_runtime()
+    SH = 25 if ctx.tier == "quick" else 40  # cases per generated Coq file
     ctx.rule = (
         "cases = configuration (numbers None/0/small/2^63+/10^30/random, storage none/config-without-storage/storage, provider, "
         "max_upload, compression None/level x VGI_HTTP_DISABLE_ZSTD, proof, introspection, sticky x whole-second TTL x echo None/{}/1/3 "
@@ -692,17 +693,24 @@ def run(ctx: Any) -> None:
     # are executed in the same pass: the run function answers with the model's headers when both agree and with a
     # marker otherwise, so a disagreement of either with the implementation shows up as a mismatch.
     keys = list(model_cases)
+    if ctx.tier == "thorough":
+        # The implementation oracle above ran on every configuration of the exhaustive product; the model is evaluated
+        # on the corners, the random configurations and every fourth configuration of the product (OPTIONS and
+        # non-OPTIONS responses differ by Cache-Control only: every third non-OPTIONS case suffices).
+        keep = {_coq_cfg(c, zstd_rt) for i, c in enumerate(configs) if i < 20 or i >= len(configs) - 600 or i % 4 == 0}
+        keys = [k for i, k in enumerate(keys) if k[0] in keep and (k[1] == "OPTIONS" or i % 3 == 0)]
+        rt_cases = [t for t in rt_cases if t[0] in keep]
     cases = [(f"({k[0]}, {cstr(k[1])}, {cbool(k[2])})", copt(_coq_headers(model_cases[k][0]))) for k in keys]
     both = (
         "(fun x => let a := run_case x in let b := run_case_with gen_cap_table gen_cap_mw_stmts gen_cap_install x in "
         f"idx (if option_eqb {EQ_HEADERS} a b then a else Some [(s2l \"model and regenerated terms differ\", [])]))"
     )
-    ok, bad, clog = ctx.coq_mismatches(COQ_HDR + COQ_IDX + "From VGI Require Import G_CapHeaders.\n", both, f"(option_eqb {EQ_IDX})", cases, "cfg_tuple * list N * bool", "option (list (N * list N))", shard=25)
+    ok, bad, clog = ctx.coq_mismatches(COQ_HDR + COQ_IDX + "From VGI Require Import G_CapHeaders.\n", both, f"(option_eqb {EQ_IDX})", cases, "cfg_tuple * list N * bool", "option (list (N * list N))", shard=SH)
     if ok:
         ctx.obligation("correspondence:regenerated-table.run_case_with", "correspondence", not bad, f"{len(bad)} of {len(cases)} cases disagree")
     else:  # the regenerated file does not even define the terms: fall back to the hand model alone
         ctx.obligation("correspondence:regenerated-table.run_case_with", "correspondence", False, "regenerated terms unusable: " + clog[-400:])
-        ok, bad, clog = ctx.coq_mismatches(COQ_HDR + COQ_IDX, "(fun x => idx (run_case x))", f"(option_eqb {EQ_IDX})", cases, "cfg_tuple * list N * bool", "option (list (N * list N))", shard=25)
+        ok, bad, clog = ctx.coq_mismatches(COQ_HDR + COQ_IDX, "(fun x => idx (run_case x))", f"(option_eqb {EQ_IDX})", cases, "cfg_tuple * list N * bool", "option (list (N * list N))", shard=SH)
     ctx.log(f"header correspondence done ({len(cases)} cases)")
     ctx.count("model_cases", len(cases))
     ctx.obligation("correspondence:M_CapHeaders.run_case", "correspondence", ok and not bad, clog if not ok else f"{len(bad)} of {len(cases)} cases disagree")
@@ -712,7 +720,7 @@ def run(ctx: Any) -> None:
 
     # ---- model correspondence: probe against the real server ------------------------------------------------
     rcases = [(a, b) for a, b, _ in rt_cases]
-    ok, bad, clog = ctx.coq_mismatches(COQ_HDR, "run_roundtrip", f"(option_eqb {EQ_CAPS})", rcases, "cfg_tuple", "option caps_tuple", shard=25)
+    ok, bad, clog = ctx.coq_mismatches(COQ_HDR, "run_roundtrip", f"(option_eqb {EQ_CAPS})", rcases, "cfg_tuple", "option caps_tuple", shard=SH)
     ctx.count("model_cases", len(rcases))
     ctx.obligation("correspondence:M_CapHeaders.run_roundtrip", "correspondence", ok and not bad, clog if not ok else f"{len(bad)} of {len(rcases)} cases disagree")
     for i in bad[:4]:
@@ -762,7 +770,7 @@ def run(ctx: Any) -> None:
         ctx.case(["probe", sorted(h.items())])
         pcases.append((_coq_named_headers(list(h.items())), _coq_caps(caps)))
         preplay.append(h)
-    ok, bad, clog = ctx.coq_mismatches(COQ_HDR + COQ_IDX, "(fun h => run_probe (unidx h))", EQ_CAPS, pcases, "list (N * bool * list N)", "caps_tuple", shard=25)
+    ok, bad, clog = ctx.coq_mismatches(COQ_HDR + COQ_IDX, "(fun h => run_probe (unidx h))", EQ_CAPS, pcases, "list (N * bool * list N)", "caps_tuple", shard=SH)
     ctx.count("model_cases", len(pcases))
     ctx.obligation("correspondence:M_CapHeaders.run_probe", "correspondence", ok and not bad, clog if not ok else f"{len(bad)} of {len(pcases)} cases disagree")
     for i in bad[:4]:
